@@ -117,7 +117,7 @@ def gen_input_value(draw, spec, t, depth=0, boundary=False, allow_null=True):
     if n == "Float":
         return draw(st.sampled_from([0.0, 1.5, -2.25, 1e-07, 3.0, 1e20]))
     if n in ("String", "ID"):
-        return draw(st.sampled_from(["", "a", "x y", "é", "q\"uote", "1.50", "line\nbreak", "back\\slash", "tab\tff\x0c"]))
+        return draw(st.sampled_from(["", "a", "x y", "é", "q\"uote", "1.50", "line\nbreak", "back\\slash", "tab\tff\x0c", "sep\u2028\u0085x"]))
     if n == "Boolean":
         return draw(st.booleans())
     k = spec.kind(n)
